@@ -343,8 +343,7 @@ theorem StOk.reduce (hc : CertFacts g x.t cert) (hx : RankFacts g x cert xc)
   · exact absurd hsr hred
   · exact absurd hred hfin
   rw [hrule] at hred
-  simp only [List.all_eq_true, Bool.or_eq_true, Bool.not_eq_true', List.contains_eq_mem,
-    decide_eq_false_iff_not] at hred
+  simp only [List.all_eq_true, Bool.or_eq_true, Bool.not_eq_true', decide_eq_false_iff_not] at hred
   have hq := (hred p' hback).resolve_left (fun h => h hpr)
   cases hg : gotoState x.t (p' : Nat) (rule.lhs : Nat) with
   | none => rw [hg] at hq; cases hq
